@@ -122,7 +122,7 @@ func (this *codabarReader) DecodeRow(rowNumber int, row *gozxing.BitArray, hints
 	}
 
 	// remove stop/start characters character and check if a long enough string is contained
-	if len(this.decodeRowResult) <= codabarReader_MIN_CHARACTER_LENGTH {
+	if len(this.decodeRowResult) < codabarReader_MIN_CHARACTER_LENGTH {
 		// Almost surely a false positive ( start + stop + at least 1 character)
 		return nil, gozxing.NewNotFoundException()
 	}
